@@ -149,6 +149,24 @@ let show_verdict = function
   | Differs (s, w) -> "DIFFERS\t" ^ (if s then "start" else "mid") ^ "\t" ^ show_word w
   | OutOfFuel -> "FUEL"
 
+
+(* trees: comp/comp=content;...  (hex), in WalkDir order *)
+let tree_of_arg (a : string) : (n list list * n list) list =
+  if a = "" || a = "." then [] else
+    List.map (fun e -> match String.split_on_char '=' e with
+        | [p; c] -> (List.map str_of_hex (String.split_on_char '/' p), str_of_hex c)
+        | _ -> failwith "bad tree entry") (String.split_on_char ';' a)
+let show_path (p : n list list) = String.concat "/" (List.map hex_of_str p)
+(* the files whose contents differ from the original tree *)
+let tree_changes (t0 : (n list list * n list) list) (t1 : (n list list * n list) list) : string =
+  let ch = List.filter_map (fun (p, c) ->
+      match List.assoc_opt p t0 with
+      | Some c0 when c0 = c -> None
+      | _ -> Some (show_path p ^ "=" ^ hex_of_str c)) t1 in
+  let created = List.length t1 - List.length t0 in
+  (match ch with [] -> "." | _ -> String.concat ";" ch) ^ (if created <> 0 then "\tKEYS-CHANGED" else "")
+let show_status = function Success -> "SUCCESS" | Fail -> "FAIL"
+
 let run_case (fields : string list) : string =
   match fields with
   | "rule_id" :: _ :: s :: _ ->
@@ -263,6 +281,24 @@ let run_case (fields : string list) : string =
   | "incl" :: excl :: fuel :: r1 :: r2 :: _ ->
     let ex = if excl = "." then [] else List.map (fun t -> n_of_int (int_of_string t)) (String.split_on_char ',' excl) in
     show_verdict (included ex (nat_of_int (int_of_string fuel)) (re_of_arg r1) (re_of_arg r2))
+  | "cli" :: cmd :: evu :: evw :: sfu :: sfw :: nsu :: nsw :: a1 :: a2 :: tr :: _ ->
+    let cfg = config_of_args evu evw sfu sfw nsu nsw in
+    let t = tree_of_arg tr in
+    (match cmd with
+     | "update_all" -> let (t', st) = cli_update_all join cfg t in show_status st ^ "\t" ^ tree_changes t t'
+     | "update_one" -> let (t', st) = cli_update_one join cfg t (str_of_hex a1) in show_status st ^ "\t" ^ tree_changes t t'
+     | "format_all" -> let (t', st) = cli_format_all t in show_status st ^ "\t" ^ tree_changes t t'
+     | "format_one" -> let (t', st) = cli_format_one t (str_of_hex a1) in show_status st ^ "\t" ^ tree_changes t t'
+     | "format_check_all" -> show_status (cli_format_check_all t) ^ "\t."
+     | "renumber_all" -> let t' = cli_renumber_all t in "SUCCESS\t" ^ tree_changes t t'
+     | "renumber_check_all" -> show_status (cli_renumber_check_all t) ^ "\t."
+     | "copyright" -> let t' = cli_copyright_all (str_of_hex a1) (str_of_hex a2) t in "SUCCESS\t" ^ tree_changes t t'
+     | "compare_all" ->
+       let v = cli_compare_all join cfg t in
+       show_status (compare_all_status (a1 = "github") v) ^ "\t" ^
+       (match v with Ok vs -> String.concat "" (List.map (fun b -> if b then "u" else "c") vs) ^ "." | _ -> "ERR")
+     | "format_target" -> "OK\t" ^ show_path (format_target parse_uint_bits (str_of_hex a1))
+     | _ -> "UNKNOWN-CLI")
   | s :: _ -> "UNKNOWN-SUITE " ^ s
   | [] -> "EMPTY"
 
